@@ -22,17 +22,31 @@ package guardiand
 // any dispatcher event; the `late` sessions drop a request on a full watcher queue, drain the queue and step the clock
 // past 1 s / 5 s / 1 min / the window (repeats of the request interleaved), recording every queue after every step.
 //
+// SCALE sessions forward hundreds to thousands of DISTINCT (chain, transaction) pairs within a fraction of one suppression
+// window (three watcher queues, drained as they fill, some requests dropped on a full queue and repeated once there is
+// room, purge ticks as due), with repeats of earlier pairs on the way; then a sample of early, middle and late pairs is
+// repeated inside the window (nothing may be forwarded), at the last instant of the first pair's window, and - after the
+// window of every pair has lapsed and the due purge tick was handled - once more (everything forwarded once) and again
+// (suppressed).  Their lines are written in an abbreviated but lossless form (`burst`, `rdrain`): every request is still
+// followed by a barrier, every queue is looked at after every request, and every drained item is in the file.
+//
 // Part 0 of the file drives the admin entry point nodePrivilegedService.SendObservationRequest (a caller of the post to
 // the outbound request queue) on queues of every fill level, under a watchdog.
 //
 // Case lines (one session = one case id):
-//   reset   <cid> tick=<ns passed to clock.Ticker|none> chans=<chain:cap,..|->
+//   reset   <cid> tick=<ns passed to clock.Ticker|none> chans=<chain:cap,..|-> [sfx=<hex>: a scale session]
 //   req     <cid> now=<ns> chain=<uint32> tx=<hex|-> res=ok|blocked|dead lens=<chain:len,..|->
 //   tick    <cid> now=<ns> res=ok|blocked|dead lens=..
 //   drain   <cid> chain=<c> n=<k> got=<chain32:txhex;..|-> lens=..
 //   setchan <cid> chain=<c> cap=<k> lens=..
 //   delchan <cid> chain=<c> lens=..
 //   adv     <cid> now=<ns> lens=..
+//   burst   <cid> now=<ns> dt=<ns> chain=<uint32> from=<i> n=<k> d=<k digits> lens=<after the last>
+//           = k `req` lines: request j (0 <= j < k) at now+j*dt for tx = le32(from+j) ++ sfx, res=ok, during which the
+//           queue of chain (chain mod 2^16) grew by d[j] and no other queue changed (anything else is written as `req`)
+//   rdrain  <cid> chain=<c> n=<k> got=<e;e;..|-> lens=..      = a `drain` line; e is `<chain32>:<from>+<cnt>`
+//           (cnt items chain32 : le32(from), le32(from+1), .. ++ sfx) or `<chain32>=<txhex|->` (any other item)
+//           (sfx: from the session's reset line)
 //   end     <cid> res=ok|panic|running
 //   adminpost <id> cap=<k> fill=<j> ctx=bg|deadline res=ok|full|err|blocked|panic len=<n after> last=same|altered|missing|- prefix=ok|changed
 
@@ -40,6 +54,7 @@ import (
 	"bufio"
 	"bytes"
 	"context"
+	"encoding/binary"
 	"encoding/hex"
 	"errors"
 	"fmt"
@@ -186,6 +201,7 @@ type c17Sess struct {
 	muted    bool
 	slow     bool // late sessions: see req()
 	nosync   int
+	sfx      []byte // scale sessions: the part all transactions of the session share (drains are written as rdrain)
 }
 
 const c17Timeout = 10 * time.Second
@@ -196,7 +212,12 @@ var c17Bad int
 const c17GiveUp = 2
 
 func c17Start(w *bufio.Writer, cid string, caps map[uint16]int) *c17Sess {
-	s := &c17Sess{w: w, cid: cid}
+	return c17StartSfx(w, cid, caps, nil)
+}
+
+// c17StartSfx: sfx != nil starts a scale session (sfx = what all its transactions share, written into the reset line)
+func c17StartSfx(w *bufio.Writer, cid string, caps map[uint16]int, sfx []byte) *c17Sess {
+	s := &c17Sess{w: w, cid: cid, sfx: sfx}
 	if c17Bad >= c17GiveUp { // enough evidence: a muted session (nothing is started, nothing is written)
 		s.muted = true
 		s.w = bufio.NewWriter(io.Discard)
@@ -242,6 +263,10 @@ func c17Start(w *bufio.Writer, cid string, caps map[uint16]int) *c17Sess {
 	var parts []string
 	for _, c := range c17SortedChains(s.chans) {
 		parts = append(parts, fmt.Sprintf("%d:%d", c, cap(s.chans[vaa.ChainID(c)])))
+	}
+	if sfx != nil {
+		fmt.Fprintf(w, "reset %s tick=%s chans=%s sfx=%s\n", cid, tick, c17Join(parts, ","), hex.EncodeToString(sfx))
+		return s
 	}
 	fmt.Fprintf(w, "reset %s tick=%s chans=%s\n", cid, tick, c17Join(parts, ","))
 	return s
@@ -397,10 +422,12 @@ func (s *c17Sess) tick(now int64) {
 func (s *c17Sess) drain(chain uint16, n int) {
 	ch, ok := s.chans[vaa.ChainID(chain)]
 	var got []string
+	var items []*gossipv1.ObservationRequest
 	if ok {
 		for i := 0; i < n; i++ {
 			select {
 			case r := <-ch:
+				items = append(items, r)
 				if r == nil {
 					got = append(got, "nil")
 				} else {
@@ -411,7 +438,122 @@ func (s *c17Sess) drain(chain uint16, n int) {
 			}
 		}
 	}
+	if s.sfx != nil {
+		fmt.Fprintf(s.w, "rdrain %s chain=%d n=%d got=%s lens=%s\n", s.cid, chain, n, c17Join(c17Runs(items, s.sfx), ";"), s.lens())
+		return
+	}
 	fmt.Fprintf(s.w, "drain %s chain=%d n=%d got=%s lens=%s\n", s.cid, chain, n, c17Join(got, ";"), s.lens())
+}
+
+// c17ScaleTx: transaction i of a scale session - a 4-byte little-endian counter, then the bytes the session's transactions share
+func c17ScaleTx(sfx []byte, i int) []byte {
+	b := make([]byte, 4, 4+len(sfx))
+	binary.LittleEndian.PutUint32(b, uint32(i))
+	return append(b, sfx...)
+}
+
+// c17Runs writes drained items with runs of consecutive scale transactions abbreviated (lossless)
+func c17Runs(items []*gossipv1.ObservationRequest, sfx []byte) []string {
+	var out []string
+	runChain, runFrom, runCnt := uint32(0), 0, 0
+	flush := func() {
+		if runCnt > 0 {
+			out = append(out, fmt.Sprintf("%d:%d+%d", runChain, runFrom, runCnt))
+			runCnt = 0
+		}
+	}
+	for _, r := range items {
+		if r == nil {
+			flush()
+			out = append(out, "nil")
+			continue
+		}
+		if len(r.TxHash) == 4+len(sfx) && bytes.Equal(r.TxHash[4:], sfx) {
+			i := int(binary.LittleEndian.Uint32(r.TxHash))
+			if runCnt > 0 && r.ChainId == runChain && i == runFrom+runCnt {
+				runCnt++
+				continue
+			}
+			flush()
+			runChain, runFrom, runCnt = r.ChainId, i, 1
+			continue
+		}
+		flush()
+		out = append(out, fmt.Sprintf("%d=%s", r.ChainId, c17Tx(r.TxHash)))
+	}
+	flush()
+	return out
+}
+
+func (s *c17Sess) lenList() []int {
+	var l []int
+	for _, c := range c17SortedChains(s.chans) {
+		l = append(l, len(s.chans[vaa.ChainID(c)]))
+	}
+	return l
+}
+
+func (s *c17Sess) lensOf(l []int) string {
+	var parts []string
+	for i, c := range c17SortedChains(s.chans) {
+		parts = append(parts, fmt.Sprintf("%d:%d", c, l[i]))
+	}
+	return c17Join(parts, ",")
+}
+
+// burst: n requests for `chain`, request j at now+j*dt for transaction from+j of the session, each one followed by a
+// barrier and a look at every queue - exactly what n calls of req do.  Consecutive requests that were taken and during
+// which nothing but the named chain's queue changed are written as ONE line (see the file comment); every other request
+// is written as the `req` line it is.
+func (s *c17Sess) burst(now, dt int64, chain uint32, from, n int) {
+	var d []byte
+	var t0 int64
+	start, last := 0, ""
+	flush := func() {
+		if len(d) > 0 {
+			fmt.Fprintf(s.w, "burst %s now=%d dt=%d chain=%d from=%d n=%d d=%s lens=%s\n", s.cid, t0, dt, chain, start, len(d), d, last)
+			d = d[:0]
+		}
+	}
+	named := int(chain % 65536)
+	for j := 0; j < n; j++ {
+		t := now + int64(j)*dt
+		tx := c17ScaleTx(s.sfx, from+j)
+		if s.stuck || s.clk.armed.Load() > 0 { // a dispatcher that stalled, or timers that may fire while time moves: the long form
+			flush()
+			s.req(t, chain, tx)
+			continue
+		}
+		before := s.lenList()
+		s.clk.set(t) // nothing is armed: a plain store
+		res := s.sendReq(&gossipv1.ObservationRequest{ChainId: chain, TxHash: tx})
+		if res == "ok" {
+			res, _ = s.barrier()
+		}
+		after := s.lenList()
+		grew, plain := 0, res != "ok"
+		for i, c := range c17SortedChains(s.chans) {
+			if after[i] == before[i] {
+				continue
+			}
+			if c == named && after[i] > before[i] && after[i]-before[i] <= 9 {
+				grew = after[i] - before[i]
+			} else {
+				plain = true
+			}
+		}
+		if plain {
+			flush()
+			fmt.Fprintf(s.w, "req %s now=%d chain=%d tx=%s res=%s lens=%s\n", s.cid, t, chain, c17Tx(tx), res, s.lensOf(after))
+			continue
+		}
+		if len(d) == 0 {
+			t0, start = t, from+j
+		}
+		d = append(d, byte('0'+grew))
+		last = s.lensOf(after)
+	}
+	flush()
 }
 
 // setchan / delchan change the watcher map while the loop is parked in its select (only after a quiescent barrier).
@@ -807,6 +949,139 @@ func (g *c17Gen) lateSession(k, repeat, drainAt int, drainEach bool) {
 	s.end()
 }
 
+// scale: n DISTINCT (chain, transaction) pairs forwarded within a quarter of one suppression window - see the file comment.
+func (g *c17Gen) scaleSession(n int) {
+	r := g.r
+	caps := map[uint16]int{2: 50, 4: 25, 5: 7}
+	sfx := make([]byte, 28)
+	r.Read(sfx)
+	s := c17StartSfx(g.w, g.cid("scale"), caps, sfx)
+	W, P := g.window, g.period
+	t0 := int64(r.Intn(int(P)))
+	dt := W / 4 / int64(n)
+	if dt < 1 {
+		dt = 1
+	}
+	now, lastTick := t0, t0
+	tickDue := func() { // the purge ticker fires at the multiples of its period; a tick is handled when the loop gets to it
+		if now/P > lastTick/P {
+			s.tick(now)
+		}
+		lastTick = now
+	}
+	cut := func() bool { return s.stuck || s.muted || s.clk.armed.Load() > 0 }
+	room := func(c uint16, k int) { // make sure the watcher of c can take k more requests: what must not be forwarded would be seen
+		if ch := s.chans[vaa.ChainID(c)]; cap(ch)-len(ch) < k {
+			s.drain(c, cap(ch))
+		}
+	}
+	var chainOf []uint16 // the chain of pair i
+	// repeat the pairs idxs (runs of consecutive pairs of one chain in one burst), all at the same instant
+	repeat := func(pick []int, wrap bool) {
+		sort.Ints(pick)
+		var idxs []int
+		for _, x := range pick {
+			if x >= 0 && x < len(chainOf) && (len(idxs) == 0 || idxs[len(idxs)-1] != x) {
+				idxs = append(idxs, x)
+			}
+		}
+		for i := 0; i < len(idxs) && !cut(); {
+			j := i + 1
+			for j < len(idxs) && j-i < 5 && idxs[j] == idxs[j-1]+1 && chainOf[idxs[j]] == chainOf[idxs[i]] {
+				j++
+			}
+			c := chainOf[idxs[i]]
+			room(c, j-i)
+			id := uint32(c)
+			if wrap && r.Intn(3) == 0 {
+				id += 65536 * uint32(1+r.Intn(3)) // names the same 16-bit chain
+			}
+			s.burst(now, 0, id, idxs[i], j-i)
+			i = j
+		}
+	}
+	nextRepeat := n/6 + 1
+	for len(chainOf) < n && !cut() {
+		c := []uint16{2, 2, 2, 4, 4, 5}[r.Intn(6)]
+		ch := s.chans[vaa.ChainID(c)]
+		free := cap(ch) - len(ch)
+		if free == 0 {
+			s.drain(c, 1+r.Intn(cap(ch)))
+			continue
+		}
+		k, over := free, 0
+		if rest := n - len(chainOf); k > rest {
+			k = rest
+		} else if r.Intn(6) == 0 {
+			over = 1 + r.Intn(2) // the queue is full when the last `over` requests arrive: dropped, not remembered
+		}
+		from := len(chainOf)
+		tickDue()
+		s.burst(now, dt, uint32(c), from, k+over)
+		now += int64(k+over) * dt
+		for i := 0; i < k+over; i++ {
+			chainOf = append(chainOf, c)
+		}
+		if r.Intn(2) == 0 { // the watcher takes some or all of its queue
+			s.drain(c, cap(ch))
+		} else {
+			s.drain(c, 1+r.Intn(cap(ch)))
+		}
+		if over > 0 && !cut() {
+			room(c, over)
+			s.burst(now, dt, uint32(c), from+k, over) // the same requests again: forwarded now
+			now += int64(over) * dt
+		}
+		if len(chainOf) >= nextRepeat && !cut() {
+			nextRepeat += n/6 + 1
+			m := len(chainOf)
+			repeat([]int{0, r.Intn(m), r.Intn(m), r.Intn(m), m - 1}, true) // earlier pairs, inside their window: suppressed
+		}
+	}
+	m := len(chainOf)
+	if m == 0 || cut() {
+		s.drainAll()
+		s.end()
+		return
+	}
+	lastFwd := now
+	var sample []int
+	for i := 0; i < 5; i++ {
+		sample = append(sample, i, m/2-2+i, m-5+i)
+	}
+	for i := 0; i < 6; i++ {
+		sample = append(sample, r.Intn(m))
+	}
+	// 1. right after the last forward: every pair is inside its window
+	now += dt
+	tickDue()
+	repeat(sample, false)
+	// 2. the last instant of the first pair's window (ticks as due on the way)
+	for next := (now/P + 1) * P; next <= t0+W; next += P {
+		now = next
+		tickDue()
+	}
+	now = t0 + W
+	repeat(sample, true)
+	// 3. the window of every pair has lapsed and the purge tick that was due after that has been handled:
+	// forwarded again, once
+	for next := (now/P + 1) * P; ; next += P {
+		now = next
+		tickDue()
+		if now > lastFwd+W {
+			break
+		}
+	}
+	for _, c := range c17SortedChains(s.chans) {
+		s.drain(uint16(c), 64)
+	}
+	repeat(sample, false)
+	now += int64(r.Intn(int(time.Minute)))
+	repeat(sample, true)
+	s.drainAll()
+	s.end()
+}
+
 func (g *c17Gen) randomSession(nops int) {
 	r := g.r
 	chainsAll := []uint16{0, 1, 2, 4, 6, 255, 256, 65534}
@@ -977,6 +1252,14 @@ func TestVerifC17Reobserve(t *testing.T) {
 	// 5. random interleavings
 	for i := 0; i < nrnd; i++ {
 		g.randomSession(10 + g.r.Intn(nops))
+	}
+	// 6. scale: many distinct pairs within one window
+	sizes := []int{300, 1100, 2500}
+	if tier == "thorough" {
+		sizes = append(sizes, 6000, 20000)
+	}
+	for _, n := range sizes {
+		g.scaleSession(n)
 	}
 	var ks []string
 	for k, v := range g.dist {
